@@ -76,6 +76,9 @@ func zzInstallLogger(s *zzSim) {
 		l.SetLevel(btclog.LevelWarn)
 	}
 	UseLogger(l)
+	if zzLogStderr {
+		invoices.UseLogger(l)
+	}
 }
 
 // ---- panic plumbing -----------------------------------------------------------------
@@ -186,7 +189,7 @@ func (s *zzSim) checkFailBack(c zzDeferred) {
 			r.Fail("state-unreadable", "Bob's pending remote commitment on connection %d: %v", c.conn, err)
 		}
 	}
-	r.Logf("    oracle: Bob sent %s upstream for %s; outgoing htlc still on: %q", c.what, p, where)
+	zzL(r, "    oracle: Bob sent %s upstream for %s; outgoing htlc still on: %q", c.what, p, where)
 	if where != "" {
 		r.Fail("fail-before-downstream-removed", "Bob sent %s to the upstream peer for forwarded %s while the outgoing HTLC is still part of %s on connection %d (the downstream peer can still claim it)",
 			c.what, p, where, c.conn)
@@ -222,13 +225,14 @@ func (s *zzSim) finish() {
 	if bob.kv.Fenced() {
 		s.rebootBob("crash")
 	}
-	r.Logf("WIND-DOWN: %d payments, %d faults", len(s.pays), s.faults)
+	zzL(r, "WIND-DOWN: %d payments, %d faults", len(s.pays), s.faults)
 	for c := 0; c < 2; c++ {
 		if !s.conns[c].up {
 			s.reconnect(c)
 		}
 	}
 	idle := 0
+	nudges := [2]int{}
 	idleSchedule := []time.Duration{100 * time.Millisecond, time.Second, 16 * time.Second, 16 * time.Second, 61 * time.Second, 16 * time.Second, 61 * time.Second, 16 * time.Second}
 	for iter := 0; iter < 400; iter++ {
 		if s.drain(1000) > 0 {
@@ -263,12 +267,70 @@ func (s *zzSim) finish() {
 			continue
 		}
 		if idle >= len(idleSchedule) {
+			// Nothing moves any more. A link that owes its peer a
+			// commitment signature and is not going to send it is a
+			// finding of its own; the next update on the channel (a
+			// small direct payment) flushes it, after which the
+			// strict end-state oracles apply.
+			if c := s.owedCommitment(); c >= 0 && nudges[c] < 2 {
+				nudges[c]++
+				s.nudge(c)
+				idle = 0
+				continue
+			}
 			break
 		}
 		s.advance(idleSchedule[idle])
 		idle++
 	}
 	s.finalChecks()
+}
+
+// owedCommitment returns a connection on which some link owes a commitment
+// signature (peer updates it has acked are missing from the commitment it
+// last signed for the peer) although everything is idle, or -1.
+func (s *zzSim) owedCommitment() int {
+	r := s.r
+	for c := 0; c < 2; c++ {
+		for _, e := range zzConnEnds[c] {
+			n := s.nodes[e]
+			zl := n.links[c]
+			if zl == nil || !zl.link.channel.OweCommitment() {
+				continue
+			}
+			st, err := n.fetchState(s.chans[c])
+			if err != nil {
+				r.Fail("state-unreadable", "%s cannot read its channel on connection %d: %v", n.name, c, err)
+			}
+			r.Count("probe_owed_commitment_at_idle")
+			r.FailOrKnown("owed-commitment-not-sent", "idle-link",
+				"%s owes its peer on connection %d a commitment signature and does not send it although the link is up and idle "+
+					"(after %d restarts of Bob, %d faults): own commitment has %d HTLCs, the peer's last signed one %d, batch timer active=%v. "+
+					"The peer's settle/fail stays uncommitted (and a fail is not propagated upstream) until some later update happens to trigger a signature",
+				n.name, c, s.nodes[zzB].boots-1, s.faults, len(st.LocalCommitment.Htlcs), len(st.RemoteCommitment.Htlcs), zl.ticker.active.Load())
+			return c
+		}
+	}
+	return -1
+}
+
+// nudge sends a small direct payment over a connection.
+func (s *zzSim) nudge(c int) {
+	r := s.r
+	x, y := zzConnEnds[c][0], zzConnEnds[c][1]
+	sx, err := s.nodes[x].fetchState(s.chans[c])
+	if err != nil {
+		r.Fail("state-unreadable", "%v", err)
+	}
+	if sx.LocalCommitment.LocalBalance < sx.LocalCommitment.RemoteBalance {
+		x, y = y, x
+	}
+	p := &zzPay{idx: len(s.pays), resolvedAtStep: -1, route: []int{x, y}, kind: zzKValid, nudge: true,
+		lastAmt: 10_000, firstAmt: 10_000}
+	s.addPayment(p)
+	zzL(r, "NUDGE connection %d with %s", c, p)
+	s.sendPayment(p)
+	s.quiesce()
 }
 
 func (s *zzSim) finalChecks() {
@@ -416,7 +478,7 @@ func (s *zzSim) finalChecks() {
 		}
 	}
 
-	r.Logf("final: %d payments, %d succeeded (%d forwarded ok, %d forwarded failed), fees %d", len(s.pays), nSucc, nFwdSucc, nFwdFail, fees)
+	zzL(r, "final: %d payments, %d succeeded (%d forwarded ok, %d forwarded failed), fees %d", len(s.pays), nSucc, nFwdSucc, nFwdFail, fees)
 	if nFwdSucc > 0 {
 		r.Count("probe_forward_success")
 	}
@@ -471,7 +533,7 @@ func TestVerifRun(t *testing.T) {
 			}
 		}
 		for _, l := range last.Trace {
-			r.Logf("%s", l)
+			zzL(r, "%s", l)
 		}
 		r.Arm = last.Arm
 		if last.HarnessErr != "" {
